@@ -7,7 +7,7 @@ from rules import registry as REG
 
 TECH = {
  "C01": "static analysis: THIR/MIR rules over the autograd engine and all backward closures (slot arity+gating, Boolean evaluation of every attach guard incl. the attach primitives, shared-slot clone provenance, counter-guard control dependence, shape typestate, additive merge)",
- "C02": "static analysis: parameter-dependence taint, linearity type system and accumulate-on-scatter rule over every backward closure; symbolic shape type system for the matrix product's deltas under all transposition flags; axis (units-of-measure) type system for the convolution index arithmetic and sibling agreement of the window-count formula; reduce-last rule (THIR via rustc_private driver)",
+ "C02": "static analysis: parameter-dependence taint, linearity type system and accumulate-on-scatter rule over every backward closure; symbolic differentiation of every element-wise forward map compared with its backward slot in an exact rational-function algebra (sibling cross-check, nothing executed); symbolic shape type system for the matrix product's deltas and for single-operand sliced_op calls under all transposition flags; axis (units-of-measure) type system for the convolution index arithmetic and sibling agreement of the window-count formula; reduce-last rule (THIR via rustc_private driver)",
  "C03": "static analysis: shape typestate over the engine's delta/gradient sinks (THIR dataflow)",
  "C08": "static analysis: type walk for interior mutability, unsafe scan, MIR place-context scan for writes/mutable borrows, public-API signature scan, destructor scan",
  "C09": "static analysis: exhaustive Boolean evaluation of every constructor's attach guard, slot gating, flag-writer inventory and stop/restore pairing",
@@ -18,8 +18,8 @@ TECH = {
  "C14": "static analysis: provenance of the parameters installed by update, optimizer state inventory (interior mutability), retained-slot / static inventory of Model, layers and optimizers, consumer-count protocol and engine-state layering (no counter residue between passes)",
  "C16": "static analysis: constructor funnel + dominating assertions, no later write (MIR), equality reads exactly dimensions and values",
  "C17": "static analysis: linearity type system (Z/L/C/N) over backward closures and the engine's delta path; default-seed provenance",
- "C18": "static analysis: ownership-edge inventory over ADT field types, MIR writers of the edge list, closure captures, retained slots",
- "C19": "static analysis: body-by-body MIR comparison of the default and f32 builds with the float width erased; rule results compared across configurations",
+ "C18": "static analysis: ownership-edge inventory over ADT field types, MIR writers of the edge list, closure captures, retained slots, Boolean evaluation of every attach guard (untracked operands record nothing)",
+ "C19": "static analysis: body-by-body MIR comparison of the default and f32 builds with the float width erased; scan for width-characteristic constants and float-dependent refusals; rule results compared across configurations",
 }
 NOTE = {p: "Trusted: rustc front end/type+borrow checker, std Rc/Cell/RefCell contracts, the driver and rule code; BLAS configurations not analysed; unwinding ignored. "
            + ("Whole-property argument in DESIGN.md section 4 (C08)." if p == "C08" else "Decides the named structural clauses only (DESIGN.md section 4), not the numeric behaviour.")
